@@ -193,7 +193,8 @@ def parseEnd? (s : String) : Option Bool :=
 
 def parseFmt? (s : String) : Option FmtKind :=
   match s with
-  | "debug" => some .debug | "debug#" => some .debugAlt | "display" => some .display | _ => none
+  | "debug" => some .debug | "debug#" => some .debugAlt | "display" => some .display
+  | "display>" => some .displayPad | "display#" => some .displayAlt | "debug>" => some .debugPad | _ => none
 
 def parseEntryEnd? (s : String) : Option (EntryEnd DVal) :=
   match s.splitOn ":" with
@@ -256,7 +257,7 @@ def parseMapOp? (args : List String) : Option (MapOp DKey DVal DKey) :=
   | ["eq", o] => do
     let (isMap, i) ← parseReg? o
     if isMap then pure (.eq i) else none
-  | ["from_iter", pulls, xs] => do pure (.from_iter (pulls == "1") (← parsePairs? xs))
+  | ["from_iter", pulls, xs] => do pure (.from_iter (pulls != "0") (← parsePairs? xs))
   | ["entry", k, mods, fin] => do
     let ms ← (← parseList? mods).mapM parseInt?
     pure (.entry (← parseKey? k) (ms.map addVal) (← parseEntryEnd? fin))
@@ -298,8 +299,8 @@ def parseSetOp? (args : List String) : Option (SetOp DKey DKey) :=
   | ["clone", dst] => (parseSetReg? dst).map .clone_to
   | ["serde", dst] => (parseSetReg? dst).map .serde
   | ["eq", o] => (parseSetReg? o).map .eq
-  | ["from_iter", pulls, xs] => do pure (.from_iter (pulls == "1") (← parseKeys? xs))
-  | ["extend", pulls, xs] => do pure (.extend (pulls == "1") (← parseKeys? xs))
+  | ["from_iter", pulls, xs] => do pure (.from_iter (pulls != "0") (← parseKeys? xs))
+  | ["extend", pulls, xs] => do pure (.extend (pulls != "0") (← parseKeys? xs))
   | ["alg", kind, o, script] => do
     let kind ← match kind with
       | "difference" => some AlgKind.difference | "intersection" => some .intersection
